@@ -18,7 +18,7 @@
     Refuted (one witness history per finding class): [c11_refuted_*]. *)
 From Coq Require Import String Ascii List Bool Arith ZArith.
 From Raven Require Import Base.GoStr Base.Like Model.Pattern Model.Names Spec.Names Spec.NamesEval
-  Proof.NamesRange Proof.NamesUpdates Proof.NamesParents Proof.NamesDb Proof.NamesArgs.
+  Proof.NamesRange Proof.NamesUpdates Proof.NamesParents Proof.NamesDb Proof.NamesArgs Proof.NamesQuote.
 Import ListNotations.
 
 (** the SQL range test of db.childNameRange is the exact, case-sensitive prefix test *)
@@ -103,6 +103,12 @@ Theorem c11_unquote_is_decode_partial : forall raw n : str,
 Proof. exact unquote_is_decode. Qed.
 Print Assumptions c11_unquote_is_decode_partial.
 
+(** the token LIST / LSUB / STATUS write for a name (utils.QuoteString) reads back, as an
+    IMAP quoted string, as exactly that name: every stored name is shown faithfully *)
+Theorem c11_shown_name_reads_back : forall n : str, decode_astring (quote_string n) = Some n.
+Proof. exact quote_string_reads_back. Qed.
+Print Assumptions c11_shown_name_reads_back.
+
 (** ---- refutations: raven leaves the property in every listed class ---- *)
 Theorem c11_refuted_quoted_space : exists h c, valid_cmd c = true /\ classify (state_after h) c = Some K_quoted_space /\ refines_at (state_after h) c = false.
 Proof. exists [], (CCreate (S_ """My Folder""")). vm_compute. repeat split; reflexivity. Qed.
@@ -159,6 +165,12 @@ Example c11_old_like_query_selected_non_children :
   /\ like (S_ "foo/%") (S_ "FOO/kid") = true /\ is_child (S_ "foo") (S_ "FOO/kid") = false
   /\ like (S_ "a%%%b/%") (S_ "ab/x") = true /\ Nat.ltb (length (S_ "ab/x")) (length (S_ "a%%%b")) = true.
 Proof. vm_compute. repeat split; reflexivity. Qed.
+
+(** before "fix: LIST, LSUB and STATUS escape the mailbox name they quote" the name was written
+    between bare quotes: the token of the stored 7-byte name q-backslash-dquote-uote read back as the 6-byte name q-dquote-uote *)
+Example c11_old_list_token_read_back_as_another_name :
+  let n := S_ "q\""uote" in decode_astring (dq :: n ++ [dq]) = Some (S_ "q""uote") /\ decode_astring (quote_string n) = Some n.
+Proof. vm_compute. split; reflexivity. Qed.
 
 (** the former witnesses of classes like_wildcard / like_case are now outside every class and refine the spec *)
 Example c11_fixed_like_witnesses :
